@@ -107,12 +107,15 @@ def pyFloat (text : List Char) : Option Val :=
 def hasBasePrefix (low : List Char) : Bool :=
   low.take 2 == ['0', 'x'] || low.take 2 == ['0', 'o'] || low.take 2 == ['0', 'b']
 
-/-- TypeScript/JavaScript: a BigInt suffix `n` is dropped; `0x/0o/0b` literals and text without `.`/`e`
+/-- TypeScript/JavaScript: a BigInt suffix `n` is dropped; `0x/0o/0b` literals, legacy octal and text without `.`/`e`
     go through `int(text, 0)`, everything else through `float(text)` -/
 def tsParse (text : List Char) : Option Val :=
   let t := if text.getLast? == some 'n' then text.dropLast else text
   let low := t.map lowerAscii
   if hasBasePrefix low then (pyInt0 t).map Val.ofNat
+  -- legacy octal of sloppy-mode JavaScript (`017` is 15) and its decimal look-alike (`089` is 89), since the repair of F02e
+  else if t.length > 1 && t.head? == some '0' && t.all Char.isDigit then
+    (if t.all (fun c => c.toNat < '8'.toNat) then digitsVal 8 t else digitsVal 10 t).map Val.ofNat
   else if !t.contains '.' && !low.contains 'e' then (pyInt0 t).map Val.ofNat
   else pyFloat t
 
